@@ -1,5 +1,6 @@
 """Verification of one function against its contract: VC generation + discharge."""
 import ast
+import os
 import time
 import z3
 from . import pv
@@ -359,13 +360,19 @@ _POOL_STATE = {}
 
 def _pool_check(i):
     reps, timeout_ms = _POOL_STATE['reps'], _POOL_STATE['timeout']
+    # a solver call that ignores its time limit must not run for ever: the worker is terminated by SIGALRM (default
+    # action) after a generous multiple of the limit; the pool replaces it and the lost answer counts as unknown
+    import signal
+    signal.alarm(int(timeout_ms / 1000.0 * 8) + 120)
     ri, oi = _POOL_STATE['index'][i]
     rep = reps[ri]
     ob = rep.obligations[oi]
     try:
         verdict, backend, dt, model = check_obligation(ob, timeout_ms)
     except Exception as e:      # noqa
+        signal.alarm(0)
         return i, 'unknown', 'error:%r' % (e,), 0.0, None, None
+    signal.alarm(0)
     inputs = mtxt = None
     if verdict in ('refuted', 'candidate') and model is not None:
         mtxt = str(model)[:2000]
@@ -399,8 +406,35 @@ def discharge_parallel(reps, timeout_ms=10000, jobs=16):
         return
     if jobs > 1 and n > 4:
         ctx = mp.get_context('fork')
-        with ctx.Pool(min(jobs, n)) as pool:
-            out = pool.map(_pool_check, range(n), chunksize=max(1, n // (jobs * 8)))
+        # a worker that dies (or a solver call that ignores its time limit) would make pool.map wait for ever: the
+        # results are collected with an overall time limit, what is missing then counts as unknown (UNDECIDED, never
+        # a verdict)
+        budget = int(os.environ.get('VERIF_POOL_S', 0)) or (5400 if timeout_ms > 30000 else 1500)
+        pool = ctx.Pool(min(jobs, n))
+        try:
+            pending = {i: pool.apply_async(_pool_check, (i,)) for i in range(n)}
+            pool.close()
+            got = {}
+            deadline = time.time() + budget
+            stall = timeout_ms / 1000.0 * 8 + 180       # (longer than the per-task alarm: a lost task never answers)
+            last = time.time()
+            while pending and time.time() < deadline and time.time() - last < stall:
+                done = [i for i, r in pending.items() if r.ready()]
+                for i in done:
+                    r = pending.pop(i)
+                    try:
+                        got[i] = r.get(timeout=1)
+                    except Exception as e:      # noqa
+                        got[i] = (i, 'unknown', 'error:%r' % (e,), 0.0, None, None)
+                    last = time.time()
+                if not done:
+                    time.sleep(0.2)
+            for i in pending:
+                got[i] = (i, 'unknown', 'error:no answer from the solver pool (time limit ignored by the solver or worker lost)',
+                          0.0, None, None)
+            out = [got[i] for i in range(n)]
+        finally:
+            pool.terminate()
     else:
         out = [_pool_check(i) for i in range(n)]
     res = {i: (v, b, dt, inp, m) for i, v, b, dt, inp, m in out}
